@@ -1,4 +1,5 @@
 import BW.Model.Linear
+import BW.Model.Chan
 import Driver.Util
 
 /-! `bwdriver conc`: `H` lines carry a recorded concurrent history; the answer says whether it has a
@@ -52,6 +53,15 @@ def main : IO Unit := do
       | some opss =>
         let all := opss.flatten
         IO.println (if search (all.length + 1) [] all then "linearizable" else "not-linearizable")
+    | ["N", n, b, w] =>
+      -- a look-up of n results whose consumer does b reads of the same graph per result, with or without a writer:
+      -- can the three come to a halt? (exhaustive search of the model's state space)
+      match n.toNat?, b.toNat?, w.toNat? with
+      | some n, some b, some w =>
+        let s0 : BW.Model.Chan.Sys := ⟨n, b, .idle, .waitRecv, if w = 0 then .done else .idle⟩
+        IO.println (if BW.Model.Chan.canHalt (4 * (n + 2) * (2 * b + 3) + 8) [s0] then "can-halt" else "progress")
+      | _, _, _ => IO.println "bad-op"
+    | "S" :: _ => IO.println "-"
     | "L" :: _ => IO.println "-"
     | "R" :: _ => IO.println "-"
     | _ => if line.startsWith "#" then IO.println line else IO.println "bad-op"
